@@ -310,12 +310,17 @@ type atOnly struct{ Matrix }
 
 // hideUnsupportedRaw returns a unchanged unless it exposes BLAS storage that
 // the Raw fast paths do not handle (a symmetric matrix stored in the lower
-// triangle). In that case a is returned inside a type that exposes only the
-// Matrix methods, so that the generic element-wise path is taken.
+// triangle or a triangular matrix with an implicit unit diagonal). In that
+// case a is returned inside a type that exposes only the Matrix methods, so
+// that the generic element-wise path is taken.
 func hideUnsupportedRaw(a Matrix) Matrix {
 	switch m := a.(type) {
 	case RawSymmetricer:
 		if m.RawSymmetric().Uplo != blas.Upper {
+			return atOnly{a}
+		}
+	case RawTriangular:
+		if m.RawTriangular().Diag == blas.Unit {
 			return atOnly{a}
 		}
 	}
